@@ -59,7 +59,7 @@ func loopsOf(fn *ssa.Function) []loopInfo {
 }
 
 func inLoop(li loopInfo, b *ssa.BasicBlock) bool {
-	if !li.header.Dominates(b) {
+	if b == nil || !li.header.Dominates(b) {
 		return false
 	}
 	for _, r := range reachableAvoiding(b, nil) {
